@@ -143,7 +143,16 @@ func runC16(c *Ctx, faults bool) {
 					c.Probe("lock-from-subdirectory")
 				}
 			}
+			// sometimes from a detached HEAD (no branch, no upstream ref to name)
+			detached := t.Bool(1, 6, "lock-from-detached-head")
+			if detached {
+				w.Git(u.dir, "checkout", "-q", "--detach")
+				c.Probe("lock-from-detached-head")
+			}
 			_, code := w.Git(lockDir, lockArgs...)
+			if detached {
+				w.Git(u.dir, "checkout", "-q", "main")
+			}
 			if p2 != "" {
 				if c.sawEvent(locks, evBefore, "granted", u.name, p2) {
 					delete(u.bitStale, p2)
@@ -210,7 +219,15 @@ func runC16(c *Ctx, faults bool) {
 					c.Probe("unlock-from-subdirectory")
 				}
 			}
+			detachedU := !removedFile && t.Bool(1, 6, "unlock-from-detached-head")
+			if detachedU {
+				w.Git(u.dir, "checkout", "-q", "--detach")
+				c.Probe("unlock-from-detached-head")
+			}
 			_, code := w.Git(runDir, args...)
+			if detachedU {
+				w.Git(u.dir, "checkout", "-q", "main")
+			}
 			if removedFile {
 				// bring the file back so that later steps have something to look at
 				w.Git(u.dir, "revert", "--no-edit", "HEAD")
